@@ -520,7 +520,7 @@ pub fn mutate_once(m: &M, sel: u16, op: u16, arg: u16, repl: &M, kind: MutKind) 
     let n = node_count(&out);
     let idx = pick(sel, n);
     let shrinking: u16 = 6;
-    let breaking: u16 = 8;
+    let breaking: u16 = 9;
     let opn = match kind {
         MutKind::Shrinking => op % shrinking,
         MutKind::Breaking => shrinking + op % breaking,
@@ -634,6 +634,24 @@ pub fn mutate_once(m: &M, sel: u16, op: u16, arg: u16, repl: &M, kind: MutKind) 
             let mut o = BTreeMap::new();
             o.insert(format!("w{}", arg % 3), inner);
             *node = M::Obj(o);
+        }
+        14 => {
+            // a string whose bytes are exactly a number's encoding, and the reverse ("PA" / 65)
+            match node {
+                M::Num(n) => {
+                    if let Ok(t) = String::from_utf8(n.enc_vec()) {
+                        *node = M::Str(t);
+                    }
+                }
+                M::Str(t) => {
+                    if let Ok(n) = N::dec_strict(t.as_bytes()) {
+                        *node = M::Num(n);
+                    } else if arg % 2 == 0 {
+                        *node = M::Str(String::from_utf8(N::U(65 + (arg % 26) as u64).enc_vec()).unwrap());
+                    }
+                }
+                _ => {}
+            }
         }
         _ => {
             // rename a key to a case variant of itself (a different key)
